@@ -1,10 +1,12 @@
 CONSTANTS
+  SuccessOnlyAtEnd = TRUE
+  RegisterAtomic = TRUE
   KeepFirstError = TRUE
   RecoverPerStage = TRUE
   FirstErrorWins = TRUE
   ErrReadAtCompletion = TRUE
 SPECIFICATION TraceSpec
-INVARIANTS AtMostOnce OnlyAfterAll ErrorReported PendingSane PreOrderOK NoOpAfterFailure FailureIsOutcome WalkComplete
+INVARIANTS AtMostOnce OnlyAfterAll ErrorReported PendingSane PreOrderOK NoOpAfterFailure FailureIsOutcome WalkComplete CompletedOnce
 CONSTRAINT HighWater
 POSTCONDITION TraceAccepted
 CHECK_DEADLOCK FALSE
